@@ -243,6 +243,7 @@ def check(prog, rep):
     selection_history_free(prog, r1, gm_info)
     rep.guarded(rule_scan_uses_own_move_set, prog, rep)
     rep.guarded(rule_reference_distance_is_shortest, prog, rep)
+    rep.guarded(rule_gap_is_loud, prog, rep, "R8")
     flip_twins(prog, r1, t, model, backbone, rank, moved_names)
 
     # ------------------------------------------------------------------ R2
@@ -733,5 +734,55 @@ def rule_reference_distance_is_shortest(prog, rep):
                     wrong.append(f"{n}: returns {path!r}")
                 elif len(path) - 1 != dist[n] or path[0] != n or path[-1] != "CA" or any(b not in adj[a] for a, b in zip(path, path[1:])):
                     wrong.append(f"{n}: {path} (shortest has {dist[n]} bonds)")
+            if oname in ("as in the table", "alphabetical", "shuffle 0"):
+                # an atom with no bond path to CA: the documented answer is None (the caller turns it into "gap in the structure")
+                loose = dict(graph)
+                loose["XA"], loose["XB"] = ["XB"], ["XA"]
+                for n in ("XA", "XB"):
+                    try:
+                        path = run.call_function("utilities.py", "shortest_path", loose, n, "CA")
+                    except Flow as fl:
+                        path = f"stops with {fl.value}"
+                    if path is not None:
+                        wrong.append(f"{n} (not connected to CA): returns {path!r} instead of None")
             r.add(f"graph|{gname}|{oname}", not wrong, f"{gname} side chain, atoms listed {oname}: shortest_path gives the breadth-first distance for {len(listing)} atoms" if not wrong else
                   f"{gname} side chain, atoms listed {' '.join(listing)}: {wrong[:3]} -- the atoms beyond a torsion are then not all rotated with it", where)
+
+
+def rule_gap_is_loud(prog, rep, rid="R8"):
+    """Biomolecule.set_reference_distance is evaluated on a model residue one of whose atoms has no bond path to CA (the repair could not
+    rebuild what connects it): the run must stop there - every later step ranks atoms by that distance."""
+    from ..guards import Flow, Obj
+    from ..objinterp import ObjRunner
+    r = rep.rule(rid, "an atom without a bond path to CA stops the run (set_reference_distance on model residues)", floor=2)
+    fi = prog.func("biomolecule.py", "Biomolecule.set_reference_distance")
+    where = f"pdb2pqr/biomolecule.py:{fi.node.lineno} (Biomolecule.set_reference_distance)"
+    for label, cut in (("complete residue", None), ("HB1 attached to nothing", "HB1"), ("CB and its hydrogens cut off from CA", "CB")):
+        res = Obj({"__class__": "ALA", "name": "ALA", "atoms": [], "map": {}, "is_n_term": False, "is_c_term": False, "chain_id": "A", "res_seq": 3, "ins_code": ""})
+        bonds = [("N", "CA"), ("CA", "C"), ("C", "O"), ("CA", "CB"), ("CB", "HB1"), ("CB", "HB2"), ("CA", "HA")]
+        if cut == "HB1":
+            bonds.remove(("CB", "HB1"))
+        elif cut == "CB":
+            bonds.remove(("CA", "CB"))
+        for n in ("N", "CA", "C", "O", "CB", "HB1", "HB2", "HA"):
+            a = Obj({"__class__": "Atom", "name": n, "bonds": [], "residue": res, "refdistance": None, "res_name": "ALA", "chain_id": "A", "res_seq": 3, "ins_code": ""})
+            res["atoms"].append(a)
+            res["map"][n] = a
+        for x, y in bonds:
+            res["map"][x]["bonds"].append(res["map"][y])
+            res["map"][y]["bonds"].append(res["map"][x])
+        bio = Obj({"__class__": "Biomolecule", "residues": [res]})
+        run = ObjRunner(prog, "biomolecule.py")
+        try:
+            run.call(bio, "set_reference_distance")
+            outcome = "returns"
+        except Flow as fl:
+            outcome = f"stops with {fl.value}"
+        dists = {a["name"]: a["refdistance"] for a in res["atoms"]}
+        if cut is None:
+            want = {"N": -1, "CA": -1, "C": -1, "O": -1, "HA": -1, "CB": 1, "HB1": 2, "HB2": 2}
+            r.add(f"gap|{label}", outcome == "returns" and dists == want, f"{label}: {outcome}; distances to CA {dists}" + ("" if dists == want else f", expected {want}"), where)
+        else:
+            r.add(f"gap|{label}", outcome.startswith("stops with") and "ValueError" in outcome,
+                  f"{label}: set_reference_distance {outcome}" + ("" if outcome.startswith("stops") else f" (distances {dists}) -- the incomplete structure is carried "
+                                                                   "on to debumping and optimisation and written out"), where)
